@@ -201,6 +201,102 @@ theorem loopIP_spec {dec : Bytes → Dec} (hd : DecOk dec) (src : Bytes) (k : Na
         · simp only [hn, if_false, dite_false]
           exact hstop
 
+theorem loopIPe_spec (early : IP → Bool) {dec : Bytes → Dec} (hd : DecOk dec) (src : Bytes) (k : Nat) :
+    ∀ (fuel : Nat) (mem : Bytes) (e f i : Nat), InvIP src k ⟨mem, e, f, i⟩ →
+      2 * (src.length - i) + (if f < i then 1 else 0) ≤ fuel →
+      Ret src k (loopIPe early dec k fuel ⟨mem, e, f, i⟩)
+        (mem.take e ++ (src.drop f).take (i - f) ++ parseFun dec (src.drop i)) := by
+  intro fuel
+  induction fuel with
+  | zero =>
+    intro mem e f i h hf
+    have hil := h.il; have hfi := h.fi
+    simp only [] at hil hfi
+    have hi : i = src.length := by split at hf <;> omega
+    have hnil : src.drop i = [] := by rw [hi]; simp
+    simp only [loopIPe]
+    rw [hnil, parseFun_nil, List.append_nil]
+    have := finishIP_spec h
+    rw [← pending_append src hfi, hnil, List.append_nil] at this
+    exact this
+  | succ fu ih =>
+    intro mem e f i h hf
+    have hil := h.il; have hfi := h.fi; have hef := h.ef; have hlen := h.len
+    simp only [] at hil hfi hef hlen
+    have htl := drop_tail h
+    have hstop : Ret src k ⟨mem, e, f, i⟩ (mem.take e ++ (src.drop f).take (i - f) ++ src.drop i) := by
+      rw [List.append_assoc, pending_append src hfi]; exact finishIP_spec h
+    rw [loopIPe]
+    by_cases hearly : early ⟨mem, e, f, i⟩ = true ∧ f < i
+    · rw [if_pos hearly]
+      obtain ⟨m1, hm, t1, l1, d1⟩ := moveIP_spec h
+      simp only [hm]
+      have hinv : InvIP src k ⟨m1, e + (i - f), i, i⟩ :=
+        ⟨by simp only []; omega, by simp only []; omega, Nat.le_refl _, hil, by simp only []; rw [d1, htl]⟩
+      have := ih m1 (e + (i - f)) i i hinv (by simp only [Nat.lt_irrefl, if_false]; rw [if_pos hearly.2] at hf; omega)
+      simp only [Nat.sub_self, List.take_zero, List.append_nil] at this
+      rw [t1] at this
+      exact this
+    rw [if_neg hearly]
+    have hf' : 2 * (src.length - i) ≤ fu + 1 := by split at hf <;> omega
+    simp only [htl]
+    by_cases hnil : src.drop i = []
+    · simp only [hnil, if_true]
+      rw [parseFun_nil]; rw [hnil] at hstop; exact hstop
+    · simp only [hnil, if_false]
+      obtain ⟨hsk, hem⟩ := hd (src.drop i) hnil
+      have hdl : (src.drop i).length = src.length - i := List.length_drop
+      rw [parseFun]
+      simp only [hnil, dite_false]
+      cases hdec : dec (src.drop i) with
+      | stop => simpa using hstop
+      | skip n =>
+        simp only []
+        by_cases hn : 0 < n
+        · simp only [hn, if_true, dite_true]
+          have hle := hsk n hdec hn
+          have hinv : InvIP src k ⟨mem, e, f, i + n⟩ :=
+            ⟨h.len, h.ef, by simp only []; omega, by simp only []; omega, h.tail⟩
+          have := ih mem e f (i + n) hinv (by split <;> omega)
+          rw [pending_extend src n hfi] at this
+          simpa [List.append_assoc, List.drop_drop, Nat.add_comm] using this
+        · simp only [hn, if_false, dite_false]
+          exact hstop
+      | emit bs n =>
+        simp only []
+        by_cases hn : 0 < n
+        · simp only [hn, if_true, dite_true]
+          obtain ⟨hle, hbl⟩ := hem bs n hdec hn
+          obtain ⟨m1, hm, t1, l1, d1⟩ := moveIP_spec h
+          simp only [hm, writeIP]
+          have hd1 : m1.drop (k + (i + n)) = src.drop (i + n) := by
+            have := congrArg (List.drop n) d1
+            simp only [List.drop_drop] at this
+            rw [← Nat.add_assoc, this, ← List.drop_drop, htl, List.drop_drop]
+          have hinv : InvIP src k ⟨m1.take (e + (i - f)) ++ bs ++ m1.drop (e + (i - f) + bs.length),
+              e + (i - f) + bs.length, i + n, i + n⟩ := by
+            refine ⟨?_, by simp only []; omega, Nat.le_refl _, by simp only []; omega, ?_⟩
+            · simp only [List.length_append, List.length_take, List.length_drop, l1]; omega
+            · simp only []
+              rw [← hd1]
+              apply List.ext_getElem?; intro j
+              simp only [List.getElem?_take, List.getElem?_append, List.getElem?_drop,
+                List.length_take, List.length_append, l1]
+              grind
+          have := ih _ _ _ _ hinv (by simp only [Nat.lt_irrefl, if_false]; omega)
+          simp only [Nat.sub_self, List.take_zero, List.append_nil] at this
+          have htk : (m1.take (e + (i - f)) ++ bs ++ m1.drop (e + (i - f) + bs.length)).take
+              (e + (i - f) + bs.length) = m1.take (e + (i - f)) ++ bs := by
+            have hl : (m1.take (e + (i - f)) ++ bs).length = e + (i - f) + bs.length := by
+              simp only [List.length_append, List.length_take, l1]; omega
+            rw [← hl, List.take_left']
+            rfl
+          rw [htk] at this
+          rw [← t1]
+          simpa [Nat.add_comm, List.append_assoc] using this
+        · simp only [hn, if_false, dite_false]
+          exact hstop
+
 /-- Parsing with one memory: `dst = mem[0:]`, `src = mem[k:]` (`mem = pad ++ src`). -/
 theorem runIP_eq {dec : Bytes → Dec} (hd : DecOk dec) (pad src : Bytes) :
     runIP dec pad.length (pad ++ src) = ((parseFun dec src).length, parseFun dec src) := by
@@ -211,6 +307,23 @@ theorem runIP_eq {dec : Bytes → Dec} (hd : DecOk dec) (pad src : Bytes) :
   simp only [List.take_zero, List.drop_zero, Nat.sub_self, List.nil_append] at h1
   unfold finishIP at h1 h2
   unfold runIP
+  have hl : (pad ++ src).length - pad.length = src.length := by simp
+  simp only [hl]
+  refine Prod.ext ?_ h1
+  simp only []
+  have hlen := congrArg List.length h1
+  simp only [List.length_take] at hlen
+  omega
+
+theorem runIPe_eq (early : IP → Bool) {dec : Bytes → Dec} (hd : DecOk dec) (pad src : Bytes) :
+    runIPe early dec pad.length (pad ++ src) = ((parseFun dec src).length, parseFun dec src) := by
+  have hinv : InvIP src pad.length ⟨pad ++ src, 0, 0, 0⟩ :=
+    ⟨by simp, Nat.zero_le _, Nat.le_refl _, Nat.zero_le _, by simp⟩
+  obtain ⟨h1, h2⟩ := loopIPe_spec early hd src pad.length (2 * (pad ++ src).length + 2) (pad ++ src) 0 0 0 hinv
+    (by simp; omega)
+  simp only [List.take_zero, List.drop_zero, Nat.sub_self, List.nil_append] at h1
+  unfold finishIP at h1 h2
+  unfold runIPe
   have hl : (pad ++ src).length - pad.length = src.length := by simp
   simp only [hl]
   refine Prod.ext ?_ h1
